@@ -168,10 +168,10 @@ package bgv
 //@   requires old(cmpval(op0.MetaData.PlaintextMetaData.Scale, op1.MetaData.PlaintextMetaData.Scale)) == 0
 //@   requires isntt(op0.Value[0]) && isntt(op0.Value[1]) && isntt(op1.Value[0]) && isntt(op1.Value[1]) && mexp(op0.Value[0]) == 0 && mexp(op0.Value[1]) == 0 && mexp(op1.Value[0]) == 0 && mexp(op1.Value[1]) == 0
 //@   ensures implies(isnil(err), val(opOut.Value[0]) == old(val(op0.Value[0])) - old(val(op1.Value[0])) && val(opOut.Value[1]) == old(val(op0.Value[1])) - old(val(op1.Value[1])))
-//@   ensures implies(isnil(err) && len(op0.Value) == 3 && len(op1.Value) == 2, len(opOut.Value) == 3 && val(opOut.Value[2]) == old(val(op0.Value[2])))
-//@   ensures implies(isnil(err) && len(op0.Value) == 2 && len(op1.Value) == 3, len(opOut.Value) == 3 && val(opOut.Value[2]) == 0 - old(val(op1.Value[2])))
-//@   ensures implies(isnil(err) && len(op0.Value) == 2 && len(op1.Value) == 2 && old(len(opOut.Value)) == 2, len(opOut.Value) == 2)
-//@   ensures implies(isnil(err) && len(op0.Value) == 2 && len(op1.Value) == 2 && old(len(opOut.Value)) == 3, len(opOut.Value) == 3 && val(opOut.Value[2]) == 0)
+//@   ensures implies(isnil(err) && old(len(op0.Value)) == 3 && old(len(op1.Value)) == 2, len(opOut.Value) == 3 && val(opOut.Value[2]) == old(val(op0.Value[2])))
+//@   ensures implies(isnil(err) && old(len(op0.Value)) == 2 && old(len(op1.Value)) == 3, len(opOut.Value) == 3 && val(opOut.Value[2]) == 0 - old(val(op1.Value[2])))
+//@   ensures implies(isnil(err) && old(len(op0.Value)) == 2 && old(len(op1.Value)) == 2 && old(len(opOut.Value)) == 2, len(opOut.Value) == 2)
+//@   ensures implies(isnil(err) && old(len(op0.Value)) == 2 && old(len(op1.Value)) == 2 && old(len(opOut.Value)) == 3, len(opOut.Value) == 3 && val(opOut.Value[2]) == 0)
 
 //@ afunc Evaluator.Add#ct
 //@   property C05
@@ -190,10 +190,10 @@ package bgv
 //@   requires old(cmpval(op0.MetaData.PlaintextMetaData.Scale, op1.MetaData.PlaintextMetaData.Scale)) == 0
 //@   requires isntt(op0.Value[0]) && isntt(op0.Value[1]) && isntt(op1.Value[0]) && isntt(op1.Value[1]) && mexp(op0.Value[0]) == 0 && mexp(op0.Value[1]) == 0 && mexp(op1.Value[0]) == 0 && mexp(op1.Value[1]) == 0
 //@   ensures implies(isnil(err), val(opOut.Value[0]) == old(val(op0.Value[0])) + old(val(op1.Value[0])) && val(opOut.Value[1]) == old(val(op0.Value[1])) + old(val(op1.Value[1])))
-//@   ensures implies(isnil(err) && len(op0.Value) == 3 && len(op1.Value) == 2, len(opOut.Value) == 3 && val(opOut.Value[2]) == old(val(op0.Value[2])))
-//@   ensures implies(isnil(err) && len(op0.Value) == 2 && len(op1.Value) == 3, len(opOut.Value) == 3 && val(opOut.Value[2]) == old(val(op1.Value[2])))
-//@   ensures implies(isnil(err) && len(op0.Value) == 2 && len(op1.Value) == 2 && old(len(opOut.Value)) == 2, len(opOut.Value) == 2)
-//@   ensures implies(isnil(err) && len(op0.Value) == 2 && len(op1.Value) == 2 && old(len(opOut.Value)) == 3, len(opOut.Value) == 3 && val(opOut.Value[2]) == 0)
+//@   ensures implies(isnil(err) && old(len(op0.Value)) == 3 && old(len(op1.Value)) == 2, len(opOut.Value) == 3 && val(opOut.Value[2]) == old(val(op0.Value[2])))
+//@   ensures implies(isnil(err) && old(len(op0.Value)) == 2 && old(len(op1.Value)) == 3, len(opOut.Value) == 3 && val(opOut.Value[2]) == old(val(op1.Value[2])))
+//@   ensures implies(isnil(err) && old(len(op0.Value)) == 2 && old(len(op1.Value)) == 2 && old(len(opOut.Value)) == 2, len(opOut.Value) == 2)
+//@   ensures implies(isnil(err) && old(len(op0.Value)) == 2 && old(len(op1.Value)) == 2 && old(len(opOut.Value)) == 3, len(opOut.Value) == 3 && val(opOut.Value[2]) == 0)
 
 // ---- ciphertext (+, -, *) integer scalar: the scalar is applied at the scale of the ciphertext, so the
 // ---- output records the scale of the input whatever the receiver held (finding F34); the components
@@ -244,8 +244,8 @@ package bgv
 //@   requires isntt(op0.Value[0]) && isntt(op0.Value[1]) && isntt(op1.Value[0]) && isntt(op1.Value[1]) && mexp(op0.Value[0]) == 0 && mexp(op0.Value[1]) == 0 && mexp(op1.Value[0]) == 0 && mexp(op1.Value[1]) == 0
 //@   requires implies(len(op1.Value) == 3, isntt(op1.Value[2]) && mexp(op1.Value[2]) == 0)
 //@   ensures implies(isnil(err), val(opOut.Value[0]) == r0 * old(val(op0.Value[0])) - r1 * old(val(op1.Value[0])) && val(opOut.Value[1]) == r0 * old(val(op0.Value[1])) - r1 * old(val(op1.Value[1])))
-//@   ensures implies(isnil(err) && len(op0.Value) == 3 && len(op1.Value) == 2, val(opOut.Value[2]) == r0 * old(val(op0.Value[2])))
-//@   ensures implies(isnil(err) && len(op0.Value) == 2 && len(op1.Value) == 3, val(opOut.Value[2]) == 0 - r1 * old(val(op1.Value[2])))
+//@   ensures implies(isnil(err) && old(len(op0.Value)) == 3 && old(len(op1.Value)) == 2, val(opOut.Value[2]) == r0 * old(val(op0.Value[2])))
+//@   ensures implies(isnil(err) && old(len(op0.Value)) == 2 && old(len(op1.Value)) == 3, val(opOut.Value[2]) == 0 - r1 * old(val(op1.Value[2])))
 
 //@ afunc Evaluator.Add#ctscaled
 //@   property C05
@@ -263,8 +263,8 @@ package bgv
 //@   requires isntt(op0.Value[0]) && isntt(op0.Value[1]) && isntt(op1.Value[0]) && isntt(op1.Value[1]) && mexp(op0.Value[0]) == 0 && mexp(op0.Value[1]) == 0 && mexp(op1.Value[0]) == 0 && mexp(op1.Value[1]) == 0
 //@   requires implies(len(op1.Value) == 3, isntt(op1.Value[2]) && mexp(op1.Value[2]) == 0)
 //@   ensures implies(isnil(err), val(opOut.Value[0]) == r0 * old(val(op0.Value[0])) + r1 * old(val(op1.Value[0])) && val(opOut.Value[1]) == r0 * old(val(op0.Value[1])) + r1 * old(val(op1.Value[1])))
-//@   ensures implies(isnil(err) && len(op0.Value) == 3 && len(op1.Value) == 2, val(opOut.Value[2]) == r0 * old(val(op0.Value[2])))
-//@   ensures implies(isnil(err) && len(op0.Value) == 2 && len(op1.Value) == 3, val(opOut.Value[2]) == r1 * old(val(op1.Value[2])))
+//@   ensures implies(isnil(err) && old(len(op0.Value)) == 3 && old(len(op1.Value)) == 2, val(opOut.Value[2]) == r0 * old(val(op0.Value[2])))
+//@   ensures implies(isnil(err) && old(len(op0.Value)) == 2 && old(len(op1.Value)) == 3, val(opOut.Value[2]) == r1 * old(val(op1.Value[2])))
 
 // ---- Rescale (property C05: "the level, degree and scale recorded on the output are the ones the
 // ---- operation documents ... no level left to rescale [is] reported as [an error] instead of a panic or
